@@ -28,7 +28,7 @@ typedef struct {
     res_t          res[MAXOPS];
     volatile int   turn, done, started, finished, wantfill, xcount;
     qthread_t     *self;
-    aligned_t      ret, gate;
+    aligned_t      ret, gate, go, xgo;
     unsigned char *argsrc;
     void          *cur_p;  size_t cur_len;
     void          *arg_p;  size_t arg_len;
@@ -38,6 +38,7 @@ typedef struct {
 static slot_t        S[MAXT];
 static volatile int  stepped = 0;
 static volatile long arrived = 0, release_gen = 0;
+static aligned_t     ctl, nstarted;   /* ctl: FEB word the controller sleeps on; every participant fills it after changing state */
 static long          preset = -1;
 
 /* ---- watch list for blob release ---- */
@@ -94,11 +95,14 @@ static void do_op(slot_t *sl, int t, int k)
         case 'w': { unsigned char *p = sl->cur_p; for (size_t i = 0; i < sl->cur_len; i++) p[i] = pat(o->arg, i); break; }
         case 'y': for (long i = 0; i < o->arg; i++) qthread_yield(); break;
         case 'm': r->v[0] = qthread_migrate_to((qthread_shepherd_id_t)o->arg); r->v[1] = qthread_shep(); break;
-        case 'b': { aligned_t tmp; sl->wantfill = 1; qthread_readFE(&tmp, &sl->gate); break; }
+        case 'b': { aligned_t tmp; sl->wantfill = 1; MACHINE_FENCE; qthread_fill(&ctl); qthread_readFE(&tmp, &sl->gate); break; }
         case 'x': {
-            long g = sl->xcount++;
+            aligned_t tmp;
+            sl->xcount++;
+            if (stepped) break;               /* no rendezvous in stepped mode */
             __sync_fetch_and_add(&arrived, 1);
-            while (release_gen <= g) qthread_yield();
+            qthread_fill(&ctl);
+            qthread_readFE(&tmp, &sl->xgo);    /* released by the controller after the audit */
             break;
         }
         case 'i': r->v[0] = qthread_id(); r->v[1] = qthread_id(); r->v[2] = me->thread_id; r->v[3] = stepped ? (long)(qlib->max_thread_id & 0x7fffffffffffffffUL) : 0;
@@ -131,11 +135,14 @@ static aligned_t run_slot(int t)
     if (sl->argsz) { sl->arg_p = me->arg; sl->arg_len = sl->argsz; }
     MACHINE_FENCE;
     sl->started = 1;
+    qthread_incr(&nstarted, 1);
+    qthread_fill(&ctl);
     for (int k = 0; k < sl->nops; k++) {
-        if (stepped) while (sl->turn <= k) qthread_yield();
+        if (stepped) { aligned_t tmp; qthread_readFE(&tmp, &sl->go); }   /* one grant per op; no yield-spinning anywhere */
         do_op(sl, t, k);
         MACHINE_FENCE;
         sl->done = k + 1;
+        if (stepped) qthread_fill(&ctl);
     }
     if (me->rdata->tasklocal_size > 0) {
         size_t so = (me->flags & QTHREAD_BIG_STRUCT) ? qlib->qthread_argcopy_size : 0;
@@ -144,6 +151,7 @@ static aligned_t run_slot(int t)
     }
     MACHINE_FENCE;
     sl->finished = 1;
+    qthread_fill(&ctl);
     return 1000 + t;
 }
 static aligned_t body_ptr(void *arg) { return run_slot((int)(intptr_t)arg); }
@@ -175,15 +183,27 @@ static void service_blockers(void)
     for (int t = 0; t < MAXT; t++) {
         slot_t *sl = &S[t];
         if (sl->used && sl->wantfill) {
-            for (int i = 0; i < 2000 && sl->self->thread_state != QTHREAD_STATE_FEB_BLOCKED; i++) qthread_yield();
             sl->wantfill = 0;
             MACHINE_FENCE;
             qthread_fill(&sl->gate);
         }
     }
 }
+/* the controller never spins on qthread_yield(): it sleeps on ctl until some participant reports a change */
+static void ctl_wait(void) { aligned_t tmp; qthread_readFE(&tmp, &ctl); }
 
-static void on_alarm(int s) { printf("TIMEOUT\n"); fflush(stdout); _exit(3); }
+static void on_alarm(int sig)
+{
+    /* diagnostics for a hung run (the run is reported as TIMEOUT) */
+    fprintf(stderr, "c09 hang: stepped=%d nstarted=%lu arrived=%ld gen=%ld ctl_full=%d mccoy_state=%d\n", stepped, (unsigned long)nstarted, arrived,
+            release_gen, qthread_feb_status(&ctl), (int)qlib->mccoy_thread->thread_state);
+    for (int t = 0; t < MAXT; t++) if (S[t].used)
+        fprintf(stderr, "  slot %d: nops=%d turn=%d done=%d started=%d finished=%d wantfill=%d state=%d go_full=%d gate_full=%d xgo_full=%d shep=%d\n", t, S[t].nops,
+                S[t].turn, S[t].done, S[t].started, S[t].finished, S[t].wantfill, S[t].self ? (int)S[t].self->thread_state : -1,
+                qthread_feb_status(&S[t].go), qthread_feb_status(&S[t].gate), qthread_feb_status(&S[t].xgo),
+                S[t].self && S[t].self->rdata ? (int)S[t].self->rdata->shepherd_ptr->shepherd_id : -1);
+    printf("TIMEOUT\n"); fflush(stdout); _exit(3);
+}
 static char ovwhy[MAXT * MAXOPS][24];
 
 static void reset_case(void)
@@ -193,19 +213,19 @@ static void reset_case(void)
         free(S[t].argsrc);
     }
     memset(S, 0, sizeof S);
-    nwatch = 0; arrived = 0; release_gen = 0;
+    nwatch = 0; arrived = 0; release_gen = 0; nstarted = 0;
 }
 
 static void run_case(int *order, int norder)
 {
     int ntasks = 0, nx = 0;
-    alarm(120);
-    if (preset >= 0 || preset == -2) { /* handled by caller */ }
+    alarm(getenv("C09_ALARM") ? atoi(getenv("C09_ALARM")) : 300);
+    qthread_empty(&ctl);
     for (int t = 0; t < MAXT; t++) {
         slot_t *sl = &S[t];
         if (!sl->used) continue;
         ntasks++;
-        qthread_empty(&sl->gate);
+        qthread_empty(&sl->gate); qthread_empty(&sl->go); qthread_empty(&sl->xgo);
         int rc;
         if (sl->argsz) {
             sl->argsrc = malloc(sl->argsz);
@@ -221,19 +241,19 @@ static void run_case(int *order, int norder)
     }
     for (int t = 0; t < MAXT; t++) if (S[t].used) { int c = 0; for (int k = 0; k < S[t].nops; k++) c += S[t].ops[k].k == 'x'; if (c > nx) nx = c; }
     if (stepped) {
-        for (int t = 0; t < MAXT; t++) if (S[t].used) while (!S[t].started) qthread_yield();
-        for (int j = 0; j < norder; j++) {
-            slot_t *sl = &S[order[j]];
+        while ((long)nstarted < ntasks) ctl_wait();
+        /* the given order first, then whatever is left, task by task in slot order (the model driver does the same) */
+        for (int j = 0; j < norder + MAXT * MAXOPS; j++) {
+            int t = j < norder ? order[j] : (j - norder) / MAXOPS;
+            slot_t *sl = &S[t];
             int k = sl->turn;
             if (!sl->used || k >= sl->nops) continue;
-            if (sl->ops[k].k == 'x') { release_gen = sl->xcount + 1; }   /* no rendezvous in stepped mode */
-            MACHINE_FENCE;
             sl->turn = k + 1;
-            while (sl->done < k + 1) { service_blockers(); qthread_yield(); }
-            if (sl->ops[k].k == 'g') sl->res[k].v[5] = overlap_check(ovwhy[order[j] * MAXOPS + k], 24);
+            MACHINE_FENCE;
+            qthread_fill(&sl->go);
+            while (sl->done < k + 1) { ctl_wait(); service_blockers(); }
+            if (sl->ops[k].k == 'g') sl->res[k].v[5] = overlap_check(ovwhy[t * MAXOPS + k], 24);
         }
-        /* let every task finish its remaining ops */
-        for (int t = 0; t < MAXT; t++) if (S[t].used) { release_gen = 1 << 20; S[t].turn = MAXOPS + 1; }
     }
     for (;;) {
         int fin = 0;
@@ -246,9 +266,12 @@ static void run_case(int *order, int norder)
             printf("X %ld %ld %s\n", (long)release_gen, ok, why);
             MACHINE_FENCE;
             release_gen++;
+            for (int t = 0; t < MAXT; t++) if (S[t].used) qthread_fill(&S[t].xgo);
+            continue;
         }
         service_blockers();
-        qthread_yield();
+        ctl_wait();
+        service_blockers();
     }
     for (int t = 0; t < MAXT; t++) if (S[t].used) { aligned_t v = 0; qthread_readFF(&v, &S[t].ret); if (v != 1000 + (aligned_t)t) printf("BADRET %d %lu\n", t, (unsigned long)v); }
     /* wait (bounded) for the descriptors to be released by the workers */
@@ -256,7 +279,7 @@ static void run_case(int *order, int norder)
         int pending = 0;
         for (int i = 0; i < nwatch; i++) if (W[i].count == 0) pending++;
         if (!pending) break;
-        qthread_yield(); usleep(1000);
+        usleep(1000);
     }
     alarm(0);
     for (int t = 0; t < MAXT; t++) {
